@@ -18,9 +18,34 @@ def _worker(args):
         if not os.path.realpath(geodepy.__file__).startswith(os.path.realpath(repo) + os.sep):
             return ('err', 'geodepy imported from %s, not from %s' % (geodepy.__file__, repo))
         mod = importlib.import_module(modname)
-        return ('ok', mod.work(item))
+        res = mod.work(item)
+        for r in res:                       # every failure remembers the work item that produced it: ./check --replay re-runs that item
+            for f in r.get('failures', []):
+                if isinstance(f.get('input'), dict):
+                    f['input'].setdefault('_chunk', item)
+        return ('ok', res)
     except BaseException:
         return ('err', traceback.format_exc())
+
+
+def replay_chunk(modname, check, inp):
+    """re-run the work item a recorded bounded failure came from (current tree) and report whether the same input fails again"""
+    repo = os.environ.get('VERIF_REPO', '/repo')
+    if repo not in sys.path:
+        sys.path.insert(0, repo)
+    mod = importlib.import_module(modname)
+    item = inp.get('_chunk')
+    if item is None:
+        return dict(note='this record carries no work item: re-run the check', input=inp)
+    key = {k: v for k, v in inp.items() if k != '_chunk'}
+    for r in mod.work(item):
+        if r['check'] != check:
+            continue
+        for f in r.get('failures', []):
+            fi = {k: v for k, v in (f.get('input') or {}).items() if k != '_chunk'}
+            if fi == key:
+                return f
+    return None
 
 
 def run(modname, tier, seed, procs=None):
